@@ -172,6 +172,11 @@ pub fn map1(x: u32, e: &Edit) -> Option<u32> {
     }
 }
 fn map_span(a: u32, b: u32, e: &Edit) -> Option<(u32, u32)> {
+    // the corners of a range may come in either order (AB1:$AA3 arises when a shared formula is translated and only one
+    // corner is locked): the range is the span between them, and each corner keeps the end it holds
+    if a > b {
+        return map_span(b, a, e).map(|(lo, hi)| (hi, lo));
+    }
     if e.insert {
         Some((map1(a, e).unwrap(), map1(b, e).unwrap()))
     } else {
@@ -537,7 +542,16 @@ pub fn gen(r: &mut Rng, d: u32, cfg: &GenCfg) -> Ast {
             Ast::Func(*r.pick(&["SUM", "IF", "MAX", "INDEX", "LOG10", "VLOOKUP", "ATAN2", "_xlfn.CONCAT"]), (0..n).map(|_| gen(r, d - 1, cfg)).collect(), allowed(cfg, "blank-after-comma") && r.chance(1, 5))
         }
         10 if allowed(cfg, "func-noargs") => Ast::Func(*r.pick(&["NOW", "PI", "RAND"]), vec![], false),
-        11 if allowed(cfg, "intersection") => Ast::Func("SUM", vec![Ast::Isect(Box::new(Ast::Ref(gen_ref(r, cfg))), Box::new(Ast::Ref(gen_ref(r, cfg))))], false),
+        11 if allowed(cfg, "intersection") => {
+            // either operand may be parenthesised; the left one may be a defined name
+            let l = match r.below(6) {
+                0 => Ast::Paren(Box::new(Ast::Ref(gen_ref(r, cfg)))),
+                1 if allowed(cfg, "name") => Ast::Name("MyName".to_string()),
+                _ => Ast::Ref(gen_ref(r, cfg)),
+            };
+            let rr = if r.chance(1, 3) { Ast::Paren(Box::new(Ast::Ref(gen_ref(r, cfg)))) } else { Ast::Ref(gen_ref(r, cfg)) };
+            Ast::Func("SUM", vec![Ast::Isect(Box::new(l), Box::new(rr))], false)
+        }
         12 if allowed(cfg, "union") => Ast::Func("SUM", vec![Ast::Union(vec![Ast::Ref(gen_ref(r, cfg)), Ast::Ref(gen_ref(r, cfg))])], false),
         _ => Ast::Bin(Box::new(gen(r, d - 1, cfg)), *r.pick(&["+", "*", "&"]), Box::new(gen(r, d - 1, cfg)), sp),
     }
@@ -623,7 +637,12 @@ pub fn norm(s: &str) -> String {
             }
             let prev = out.chars().last();
             let next = ch.get(j).copied();
-            let drop = prev.map(|p| ops.contains(p)).unwrap_or(true) || next.map(|n| ops.contains(n) || n == '%').unwrap_or(true);
+            // a blank between two operands is the intersection operator and stays, also when one of the operands is
+            // parenthesised: "B2 (A1:C3)", "(A1:C3) (B2:D4)", "(A1:C3) B2"
+            let operand_end = |p: char| p.is_alphanumeric() || matches!(p, ')' | '"' | '\'' | ']' | '}' | '_' | '.' | '!');
+            let operand_start = |n: char| n.is_alphanumeric() || matches!(n, '(' | '$' | '\'' | '[' | '_' | '#');
+            let intersection = prev.map(operand_end).unwrap_or(false) && next.map(operand_start).unwrap_or(false);
+            let drop = !intersection && (prev.map(|p| ops.contains(p)).unwrap_or(true) || next.map(|n| ops.contains(n) || n == '%').unwrap_or(true));
             if !drop {
                 out.push(' ');
             }
